@@ -183,8 +183,12 @@ def main(tier):
     check.inconclusive = check.inconclusive[:20]
     sat_shapes = [r for r in results if r['sat']]
     # every sat answer is replayed through the public API before it is reported
-    for r in sat_shapes[:5]:
+    # (witnesses over uninterpreted lerp/easing need not be visible with the real kernels: several shapes are tried)
+    for r in sat_shapes[:60]:
+        if len(check.violations) >= 3: break
         confirm(check, r)
+    if check.violations:
+        check.inconclusive = [x for x in check.inconclusive if 'did not reproduce' not in x]
     ob = Obligation('C01.per-path', [], words='for every path of update() on every shape: position strictly inside a segment => value == LERP(start, end, EASE(easing in force at the start keyframe, (q-a)/(b-a)))')
     check.info.update(shapes=len(shapes), path_obligations=nob, path_discharged=ndis, shapes_with_counterexample=len(sat_shapes),
                       instantiations=['SubTimeline<f32>', 'SubTimeline<u8>'] + (['SubTimeline<i16>'] if tier != 'quick' else []),
@@ -206,7 +210,8 @@ def main(tier):
 
 
 def confirm(check, r):
-    mv = r['sat'][0]
+    mv = next((x for x in r['sat'] if x), None)
+    if mv is None: return
     case = replay_case(r['shape'], mv)
     try:
         nat = run_replay([case], 'dev', 'replay_tl')[0]
